@@ -48,8 +48,10 @@ def _option_arms(b, call_bb):
 
 def r1_three_way(cx):
     F = cx.F
-    f = F.one(impl_self="reader::jubako::Container", item="_get_pack", closure=False)
-    b = F.body(f)
+    # the lookup behind Container::get_pack, with the container's own private helpers (_get_pack, ...) inlined:
+    # the clauses hold whatever the helpers are called and wherever the manifest lookup sits
+    f = F.one(impl_self="reader::jubako::Container", item="get_pack", closure=False)
+    b = F.deep_body(f, only=r"reader::jubako::Container::")
     gi = b.calls(r"ManifestPack::get_content_pack_info$")
     lo = b.calls(r"PackLocatorTrait>::locate$")
     ok = len(gi) == 1 and len(lo) == 1
@@ -105,10 +107,11 @@ def r1_three_way(cx):
         guard_ok = len(gets) >= 1
     cx.ob("R1", "R1/get_pack/slot-index-guarded", guard_ok, g, "self.packs[pack_id] is reached only under the comparison of pack_id with packs.len()")
     miss_in = _aggs(gb, "MayMissPack", "MISSING")
-    cx.ob("R1", "R1/get_pack/forwards-MISSING", len(miss_in) >= 1 and gb.calls(r"Container::_get_pack$") != [], g, "get_pack forwards MISSING(pack_info) from _get_pack")
+    miss_in = miss_in or _aggs(b, "MayMissPack", "MISSING")
+    cx.ob("R1", "R1/get_pack/forwards-MISSING", len(miss_in) >= 1, g, "get_pack forwards MISSING(pack_info) to its caller")
     h = F.one(impl_self="reader::jubako::Container", item="get_bytes", closure=False)
-    hb = F.body(h)
-    cx.ob("R1", "R1/get_bytes/forwards-MISSING", len(_aggs(hb, "MayMissPack", "MISSING")) >= 1 and len(hb.calls(r"ContentPack::get_content$")) == 1 and not hb.calls(r"MayMissPack::<.*>::unwrap$"), h,
+    hb = F.deep_body(h, only=r"reader::missing::MayMissPack")   # MayMissPack's own combinators (map, transpose) are transparent
+    cx.ob("R1", "R1/get_bytes/forwards-MISSING", len(_aggs(hb, "MayMissPack", "MISSING")) >= 1 and len(hb.calls(r"ContentPack::get_content$")) + sum(len(F.body(c).calls(r"ContentPack::get_content$")) for c in F.closures_of(h) if "blocks" in c) == 1 and not hb.calls(r"MayMissPack::<.*>::unwrap$"), h,
           "get_bytes maps MISSING to MISSING and only FOUND to get_content (no unwrap of the MayMissPack)")
 
 
